@@ -138,3 +138,35 @@ pub fn exec_program_for_replay(state: &StateSpec, max_steps: usize, mode: &str) 
     });
     r.map_err(|(loc, msg)| format!("panic at {}: {}", loc, msg))
 }
+
+// ---------------------------------------------------------------------------------------------
+// TICK: a harness instruction (added through InstructionSet::add, as the README documents) that
+// pops a marker k from INTEGER and appends (k, current of the top INDEX or -1, top INTEGER after
+// the pop) to a thread-local log.
+
+thread_local! {
+    pub static TICK_LOG: std::cell::RefCell<Vec<(i32, i64, Option<i32>)>> = std::cell::RefCell::new(vec![]);
+    static TICK_MACHINE: std::cell::RefCell<Option<Machine>> = std::cell::RefCell::new(None);
+}
+fn tick(push_state: &mut PushState, _c: &InstructionCache) {
+    if let Some(k) = push_state.int_stack.pop() {
+        let cur = push_state.index_stack.get(0).map(|i| i.current as i64).unwrap_or(-1);
+        let top = push_state.int_stack.get(0).cloned();
+        TICK_LOG.with(|l| l.borrow_mut().push((k, cur, top)));
+    }
+}
+pub fn with_tick_machine<R>(f: impl FnOnce(&mut Machine) -> R) -> R {
+    TICK_MACHINE.with(|m| {
+        let mut m = m.borrow_mut();
+        if m.is_none() {
+            let mut mm = Machine::new(true);
+            mm.iset.add("TICK".to_string(), Instruction::new(tick));
+            mm.icache = mm.iset.cache();
+            *m = Some(mm);
+        }
+        f(m.as_mut().unwrap())
+    })
+}
+pub fn reset_tick_machine() {
+    TICK_MACHINE.with(|m| *m.borrow_mut() = None);
+}
